@@ -24,6 +24,21 @@ add('C09', 'proof', 'Lean 4 theorems about an executable model + exhaustive/rand
     'qecsim.paulitools by exact comparison, exhaustive for n<=3 (n<=4 thorough) and random to n=300.',
     TB + 'Modelled rather than verified: qecsim/paulitools.py.')
 
+add('C20', 'proof', 'Lean 4 theorems about an executable model of validate + correspondence on corrupted random codes',
+    'validate passes iff the three commutation conditions hold (Lean theorem for any k and any operator sets), the '
+    'stacked condition is proved equivalent to the canonical X/Z pairing, the error raised is the first failing check, '
+    'logicals = xs then zs, DecodeResult precondition; the model is tied to qecsim.model by exact comparison on random '
+    'valid codes (random Clifford images) and every single-operator corruption class.',
+    TB + 'Modelled rather than verified: StabilizerCode.validate/logicals, DecodeResult.__init__.')
+add('C01', 'proof', 'Lean 4 theorems about an executable model of _run_once + scripted-run correspondence',
+    'Syndrome hand-off incl. the periodic t-1 wrap, cancellation of measurement flips in the XOR of rows for every T, '
+    'total error, verdict resolution, pass-through for all 16 DecodeResult shapes, error weight and argument '
+    'validation are Lean theorems with the decoder answer, step errors and flips universally quantified; tied to '
+    'qecsim.app by driving the real run_once/run_once_ftp with a scripted error model, scripted rng and recording '
+    'decoder and comparing decoder arguments and the result dict exactly.',
+    TB + 'Modelled rather than verified: app._run_once, run_once, run_once_ftp, validators of run/run_ftp. The error '
+    'model, rng and decoder are parameters of the model (universally quantified).')
+
 NOT_YET = {}
 
 
